@@ -235,6 +235,26 @@ def first(n):
     return cs
 
 
+def single(n):
+    """Characters c such that the one-character string c is in the language of n."""
+    if n[0] == "set":
+        return n[1]
+    if n[0] == "alt":
+        cs = CharSet()
+        for x in n[1]:
+            cs = cs.union(single(x))
+        return cs
+    if n[0] == "rep":
+        if n[2] <= 1 or nullable(n[1]):
+            return single(n[1])
+        return CharSet()
+    cs = CharSet()
+    for i, x in enumerate(n[1]):
+        if all(nullable(y) for j, y in enumerate(n[1]) if j != i):
+            cs = cs.union(single(x))
+    return cs
+
+
 def mandatory_prefix(n):
     """List of CharSets for the leading positions every match must have."""
     if n[0] == "set":
@@ -359,15 +379,21 @@ class Spec:
                 return False
         return True
 
-    def total(self):
-        """Do the first-character classes of all patterns cover every code point?"""
+    def uncovered(self):
+        """Code points c for which no pattern matches the one-character string c (None if a pattern is
+        unsupported).  If this is empty some pattern matches at every position of every input, so the
+        lexer can never yield an error; covering only the *first*-character classes would not be enough."""
         cs = CharSet()
         for k, ps in self.tokens.items():
             for p in ps:
                 if p["node"] is None:
-                    return False
-                cs = cs.union(first(p["node"]))
-        return cs.is_all()
+                    return None
+                cs = cs.union(single(p["node"]))
+        return cs.negate()
+
+    def total(self):
+        u = self.uncovered()
+        return u is not None and not u.ivs
 
     def kinds_containing(self, ch):
         out = []
